@@ -43,10 +43,10 @@ Proof. reflexivity. Qed.
 Definition importer_loop_status : list (string * string * lkind * lstatus) := [
   ("pkg/importer", "IndentWriter.Write", LRec, NotARecursion "calls the Write of the embedded io.Writer, not itself");
   ("pkg/importer", "OpenAPI3Importer.buildField", LMutual 2, Proved "C01_swagger_import_terminates: no descent into a property that is a $ref or an array of a $ref; an inline object goes to loadTypeSchema");
-  ("pkg/importer", "OpenAPI3Importer.loadTypeSchema", LMutual 2, Proved "C01_swagger_import_terminates: a $ref is followed (allOf, items named `object`) only after isCircular said no and refMap[ref] = false was set; the deferred setDefined(ref) clears the mark when the frame returns (C01_swagger_marks_restored); refMap is created once");
+  ("pkg/importer", "OpenAPI3Importer.loadTypeSchema", LMutual 2, Proved "C01_swagger_import_terminates: a $ref is followed (allOf, items named `object`) only after isCircular said no and refMap[ref] = false was set; setDefined(ref) clears the mark - deferred for array items, right after the part for allOf (since c310a5e) - so a successful call restores the marks (C01_swagger_marks_restored); refMap is created once");
   ("pkg/importer", "OpenAPI3Importer.typeNameFromSchemaRef", LRec, Proved "C01_swagger_import_terminates (tn_obj): stops at a $ref into the definitions, else walks down inline `items`; $refs to other places are not modelled (kin-openapi refuses circles of them: observed by stream foreign-cycle)");
   ("pkg/importer", "exampleAttrStr", LRec, NotProved "recursion on a decoded JSON value (finite tree); the map / slice cases re-enter once with a string; no model");
-  ("pkg/importer", "getAllElements", LRec, OffCompilePath "XSD: walks up the Base chain of a complex type as aqwari.net/xml/xsd resolved it; not proved");
+  ("pkg/importer", "getAllElementsBelow", LRec, OffCompilePath "XSD: walks up the Base chain of a complex type; since 4924daa the types passed are kept in onPath and a type derived from itself ends the chain (rec_skeleton_current); not proved");
   ("pkg/importer", "getSyslTypeName", LRec, NotProved "recursion on the Items / Target chain of the importer's Type values, which the importers build without pointer circles; no model");
   ("pkg/importer", "makeComplexType", LMutual 4, OffCompilePath "XSD: knownTypes.Add(item) BEFORE the children are built and findType before makeType in createChildItem (rec_skeleton_current) stop an element of its own / an enclosing type; not proved");
   ("pkg/importer", "makeExtendedType", LMutual 4, OffCompilePath "XSD: makeType on the Base of a simpleContent extension; no marker: an extension circle is left to the xsd parser; not proved");
